@@ -62,4 +62,3 @@ def main : IO Unit := do
 
 end OG.C02
 
-def main : IO Unit := OG.C02.main
